@@ -64,7 +64,68 @@ fn vx_fallback_grpcauth() {
                 }
             }
         }
+        // type-name spellings around the registered data types: whatever the dispatcher makes of them, a request without a session
+        // must never be handed to a data handler (entering it shows as a decode error of the junk body, or as success)
+        for ty in data_types {
+            let spellings = [format!("Raft.{}", ty), format!("Raft{}", ty), format!("RaftAppendRequest.{}", ty), format!("NamingRouteRequest.{}", ty),
+                             format!("ServerCheckRequest.{}", ty), format!("HealthCheckRequest.{}", ty), format!("x.{}", ty), format!("{}.x", ty),
+                             format!(" {}", ty), format!("{} ", ty), ty.to_lowercase()];
+            for sp in spellings.iter() {
+                for cl in [None, Some(""), Some(TOK)] {
+                    let (_v, _s, msg) = send(&server, sp, cl, None).await;
+                    if msg.is_none() || msg.as_deref() == Some("handler-entered") {
+                        bad.push(format!("VX-FALLBACK request type {:?} (cluster token {:?}, no session) reached a handler: {:?}", sp, cl, msg));
+                    }
+                }
+            }
+        }
         bad
     });
-    assert!(failures.is_empty(), "{}", failures.join("\n"));
+    assert!(failures.is_empty(), "{} failing request(s), first ones:\n{}", failures.len(), failures.iter().take(12).cloned().collect::<Vec<_>>().join("\n"));
+}
+
+/// the same sweep with NO cluster token configured (the default deployment)
+#[test]
+fn vx_fallback_grpcauth_no_cluster_token() {
+    let dir = tempfile::tempdir().unwrap();
+    let mut cfg = AppSysConfig::init_from_env();
+    cfg.local_db_dir = dir.path().join("nacos_db").to_string_lossy().to_string();
+    cfg.openapi_enable_auth = true;
+    cfg.cluster_token = Arc::new(String::new());
+    cfg.raft_auto_init = false;
+    cfg.metrics_enable = false;
+    cfg.naming_instance_metadata_persistence_enable = false;
+    let cfg = Arc::new(cfg);
+    let failures: Vec<String> = actix_rt::System::new().block_on(async move {
+        let factory_data = config_factory(cfg).await.unwrap();
+        let app = build_share_data(factory_data).unwrap();
+        let mut invoker = InvokerHandler::new(app.clone());
+        invoker.add_raft_handler(&app);
+        invoker.add_config_handler(&app);
+        invoker.add_naming_handler(&app);
+        let server = RequestServerImpl::new(app, invoker);
+        let mut bad = vec![];
+        let data_types = ["ConfigQueryRequest", "ConfigPublishRequest", "ConfigRemoveRequest", "ConfigBatchListenRequest", "InstanceRequest",
+                          "BatchInstanceRequest", "SubscribeServiceRequest", "ServiceQueryRequest", "ServiceListRequest"];
+        for ty in data_types {
+            for acc in [None, Some(""), Some("no-such-token")] {
+                let (_v, has_session, msg) = send(&server, ty, None, acc).await;
+                if has_session { bad.push(format!("VX-FALLBACK session attached for access token {:?}", acc)); }
+                if msg.as_deref() != Some("unknown user!") { bad.push(format!("VX-FALLBACK data request {} (accessToken {:?}) not refused with 403: {:?}", ty, acc, msg)); }
+            }
+            let spellings = [format!("Raft.{}", ty), format!("Raft{}", ty), format!("RaftAppendRequest.{}", ty), format!("NamingRouteRequest.{}", ty),
+                             format!("ServerCheckRequest.{}", ty), format!("HealthCheckRequest.{}", ty), format!("x.{}", ty), format!("{}.x", ty),
+                             format!(" {}", ty), format!("{} ", ty), ty.to_lowercase()];
+            for sp in spellings.iter() {
+                for cl in [None, Some(""), Some("anything")] {
+                    let (_v, _s, msg) = send(&server, sp, cl, None).await;
+                    if msg.is_none() || msg.as_deref() == Some("handler-entered") {
+                        bad.push(format!("VX-FALLBACK request type {:?} (cluster token {:?}, no session, no cluster token configured) reached a handler: {:?}", sp, cl, msg));
+                    }
+                }
+            }
+        }
+        bad
+    });
+    assert!(failures.is_empty(), "{} failing request(s), first ones:\n{}", failures.len(), failures.iter().take(12).cloned().collect::<Vec<_>>().join("\n"));
 }
